@@ -112,6 +112,20 @@ func main() {
 				}
 				panel = append(panel, panelEntry{spec: spec, tf: d.BuildTyped(spec)})
 			}
+			// a Batch(rel...) call on a filter leaves spare capacity in its relation slice; later Query(rel...) calls must
+			// still get private copies. Done here, sequentially, on every shared typed filter with a relation component.
+			for _, pe := range panel {
+				if pe.tf == nil {
+					continue
+				}
+				if qr := g.QRelsFor(pe.spec, 100); len(qr) > 0 {
+					func() {
+						defer func() { recover() }()
+						_ = pe.tf.Batch(d.Rels(qr, d.FilterOrder(pe.spec), c%3))
+					}()
+					res.Counters["shared-filters-with-prior-batch-call"]++
+				}
+			}
 			// per-goroutine plans are drawn sequentially (the generator is not thread-safe)
 			type step struct {
 				pi     int // panel index or -1 for a private filter
@@ -149,7 +163,8 @@ func main() {
 				for k := 0; k < 3; k++ {
 					pi := 6 + (gi+k*3)%9
 					s := step{pi: pi, spec: panel[pi].spec, tf: panel[pi].tf, mode: g.R.Intn(5)}
-					s.expect = m.Select(s.spec, nil)
+					s.qrels = g.QRelsFor(s.spec, 70)
+					s.expect = m.Select(s.spec, s.qrels)
 					// put it first for some goroutines so that first uses collide
 					if gi%2 == 0 {
 						plans[gi] = append([]step{s}, plans[gi]...)
